@@ -226,3 +226,19 @@ Definition renew_ok (s : st) (e : ev) : bool :=
 (* projection compared with the frames captured on the real connection *)
 Definition wire_obs (s : st) : list (Z * Z * bool * bool) :=
   map (fun c => (c_seq c, c_req c, c_final c, c_opn c)) (wire s).
+
+(* comparison with the harness: full (seq, request id, final, opn) or, for response senders whose request ids are
+   chosen by the caller, only (seq, final) *)
+Fixpoint obs_eqb (full : bool) (a b : list (Z * Z * bool * bool)) : bool :=
+  match a, b with
+  | [], [] => true
+  | (s1, r1, f1, o1) :: a', (s2, r2, f2, o2) :: b' =>
+      (s1 =? s2) && (negb full || ((r1 =? r2) && Bool.eqb o1 o2)) && Bool.eqb f1 f2 && obs_eqb full a' b'
+  | _, _ => false
+  end.
+
+Definition schedule_agrees (full : bool) (seq0 req0 : Z) (evs : list ev) (observed : list (Z * Z * bool * bool)) : bool :=
+  match run evs (init seq0 req0) with
+  | Some s => obs_eqb full (wire_obs s) observed
+  | None => false
+  end.
